@@ -656,6 +656,10 @@ def oracle_total(ctx, case, op='parse'):
             ctx.fail('non-valueerror', 'URLInfo.parse', dict(case.as_json(), history=history()),
                      'parse raised %s: %s' % (type(e).__name__, str(e)[:200]))
         return
+    if op == 'parse' and e is None and type(case.info).__name__ != 'URLInfo':
+        ctx.fail('not-a-urlinfo', 'URLInfo.parse', case.as_json(),
+                 'parse returned %r for %r: neither a URLInfo nor a ValueError' % (case.info, case.url))
+        return
     for name, err in case.errs:
         ctx.fail('accessor-raises', name, case.as_json(),
                  'reading %s of the parse result raised %s: %s' % (name, type(err).__name__, str(err)[:200]))
@@ -1104,8 +1108,57 @@ def long_host(rng):
     return h + rng.choice(['', '', '.', ':8080'])
 
 
+NON_NETWORK = ['data:', 'data:,x', 'DATA:text/plain,hello', 'Data:;base64,AAAA', 'dAtA:image/png;base64,iVBORw0KGgo=', 'data:text/html,<a href=x>',
+               'data', 'data:/', 'datax:1', 'xdata:1', 'data\u00a0:x', 'javascript:', 'javascript:void(0)', 'JavaScript:alert(1)', 'about:blank',
+               'mailto:', 'mailto:a@b.c', 'MAILTO:A@B', 'tel:+1-555', 'urn:isbn:1', 'blob:http://h/1', 'file:///etc/x', 'view-source:http://h/',
+               'magnet:?xt=urn:btih:0', 'sms:1', 'geo:1,2', 'irc://h/c', 'x:', 'x:y', 'x-y+z.w:q', '1:2', 'cid:a@b', 'news:comp.x', 'ssh://h/']
+WS = ['', '', ' ', '  ', '\t', '\n', '\u00a0', '\u3000', ' \r\n', '\x1c', '\u2028']
+
+
+def gen_non_network(rng):
+    """texts without a network scheme (data:, javascript:, mailto: …) in any case, with surrounding white space"""
+    t = rng.choice(NON_NETWORK)
+    if rng.random() < 0.4:
+        t = ''.join(c.upper() if rng.random() < 0.5 else c.lower() for c in t)
+    if rng.random() < 0.3:
+        t += rng.choice(['x', ',', '%41', '\u00e9', '?q#f', 'A' * 50, '//h/p'])
+    return rng.choice(WS) + t + rng.choice(WS)
+
+
+def non_network_cases(rng, n):
+    out = [Case(w1 + t + w2, ds, 'utf-8', 'non-network') for t in NON_NETWORK for (w1, w2) in (('', ''), (' ', ' '), ('\n\t', '\u3000'))
+           for ds in ('http', None)]
+    out += [Case(gen_non_network(rng), *pick_config(rng), 'non-network') for _ in range(n)]
+    return out
+
+
+def stream_normalize(ctx, wu, cases):
+    """wpull.url.normalize(text) = URLInfo.parse(text).url: a str, or a ValueError"""
+    for c in cases:
+        wu.URLInfo.parse.__func__.cache_clear()
+        cj = dict(c.as_json(), stream='normalize')
+        ctx.case(('normalize',) + c.key(), tags=['normalize'])
+        try:
+            with guard():
+                r = wu.normalize(c.url, default_scheme=c.ds, encoding=c.encoding)
+        except Timeout:
+            ctx.fail('nontermination', 'normalize', cj, 'timeout')
+            continue
+        except ValueError:
+            continue
+        except LookupError:
+            continue
+        except BaseException as e:
+            ctx.fail('non-valueerror', 'normalize', cj, 'normalize(%r) raised %s: %s' % (c.url, type(e).__name__, str(e)[:200]))
+            continue
+        if not isinstance(r, str):
+            ctx.fail('not-a-urlinfo', 'normalize', cj, 'normalize(%r) returned %r' % (c.url, r))
+
+
 def gen_malformed(rng):
     r = rng.random()
+    if r < 0.04:
+        return gen_non_network(rng)
     if r < 0.05:
         return rng.choice(['http://', 'https://u@', '//', '']) + long_host(rng) + rng.choice(['', '/', '/p?q'])
     if r < 0.35:
